@@ -3,6 +3,7 @@ package rules
 import (
 	"fmt"
 	"go/ast"
+	"go/constant"
 	"go/token"
 	"go/types"
 	"regexp"
@@ -134,6 +135,7 @@ func (e *Env) RFragHelpers() {
 // decoration point or panicking.
 func (e *Env) RFragOrder() {
 	e.RAttachWithinFile()
+	e.RStageMonotone()
 	pkg := e.Prog.Pkg(load.PkgDecorator)
 	info := pkg.TypesInfo
 	c := e.Sib.Ctx[load.PkgDecorator]
@@ -196,7 +198,7 @@ func (e *Env) RFragOrder() {
 	// end positions, read through the locals that hold them, name the same variable.
 	if lit != nil {
 		undo := c.InstallReachingIn(lit.Body)
-		posLine := regexp.MustCompile(`^f\.Fset\.Position\((.*)\)\.Line$`)
+		posLine := regexp.MustCompile(`^f\.Fset\.Position\((.*)\)\.Line(?: [+-] \d+)?$`)
 		ident := regexp.MustCompile(`([A-Za-z_]\w*)\.`)
 		nAvoid := 0
 		ast.Inspect(lit.Body, func(n ast.Node) bool {
@@ -421,4 +423,109 @@ func (e *Env) RFragOrder() {
 		}
 	}
 	e.Run.Floor("R-FRAG", "uses of findDecoration results in link", nLoops, 2)
+}
+
+// RStageMonotone (R-FRAG): findIndentedComments sorts the comments that follow a statement into
+// two groups — first the ones hanging at the statement's End indent, then the ones at its Start
+// indent that belong to the next node — through an int stage that indexes the result array. The
+// stage only ever moves forward: an assignment of a constant k to it must either assign the
+// largest stage there is or be reachable only where the stage is already <= k. Sending the stage
+// back re-opens the first group after the second has started: a later comment is attached to the
+// previous node's End while the lines above it went to the next node's Start — the block is
+// split and reordered.
+func (e *Env) RStageMonotone() {
+	pkg := e.Prog.Pkg(load.PkgDecorator)
+	info := pkg.TypesInfo
+	c := e.Sib.Ctx[load.PkgDecorator]
+	fd := load.FuncDecl(pkg, "fileDecorator", "findIndentedComments")
+	if fd == nil || fd.Body == nil {
+		e.Run.Violation("R-FRAG", "findIndentedComments exists", "", "missing")
+		return
+	}
+	// the stage: an int local that indexes an array-typed result/local in an assignment target
+	var stage types.Object
+	ast.Inspect(fd.Body, func(n ast.Node) bool {
+		as, ok := n.(*ast.AssignStmt)
+		if !ok {
+			return true
+		}
+		for _, l := range as.Lhs {
+			if ix, ok := l.(*ast.IndexExpr); ok {
+				if _, isArr := info.TypeOf(ix.X).Underlying().(*types.Array); isArr {
+					if id, ok := ix.Index.(*ast.Ident); ok {
+						if v, ok := info.Uses[id].(*types.Var); ok && !v.IsField() {
+							stage = v
+						}
+					}
+				}
+			}
+		}
+		return true
+	})
+	if stage == nil {
+		e.Run.Undecided("R-FRAG", "findIndentedComments: the stage only moves forward", e.Prog.Pos(fd.Pos()), "no int local indexing the result array")
+		return
+	}
+	type asg struct {
+		k    int64
+		node ast.Node
+	}
+	var asgs []asg
+	bad := ""
+	ast.Inspect(fd.Body, func(n ast.Node) bool {
+		switch s := n.(type) {
+		case *ast.AssignStmt:
+			for i, l := range s.Lhs {
+				id, ok := l.(*ast.Ident)
+				if !ok || info.Uses[id] != types.Object(stage) || len(s.Lhs) != len(s.Rhs) {
+					continue
+				}
+				tv, ok := info.Types[s.Rhs[i]]
+				if s.Tok != token.ASSIGN || !ok || tv.Value == nil {
+					bad = "the stage is assigned a non-constant (" + c.ExprStr(s.Rhs[i]) + ")"
+					continue
+				}
+				k, _ := constant.Int64Val(tv.Value)
+				asgs = append(asgs, asg{k, s})
+			}
+		case *ast.IncDecStmt:
+			if id, ok := s.X.(*ast.Ident); ok && info.Uses[id] == types.Object(stage) && s.Tok == token.DEC {
+				bad = "the stage is decremented"
+			}
+		}
+		return true
+	})
+	if bad != "" {
+		e.Run.Violation("R-FRAG", "findIndentedComments: the stage only moves forward", e.Prog.Pos(fd.Pos()), bad)
+		return
+	}
+	var max int64
+	for _, a := range asgs {
+		if a.k > max {
+			max = a.k
+		}
+	}
+	for _, a := range asgs {
+		ok := a.k == max
+		if !ok {
+			// reachable only with stage <= k already
+			if cond, okc := pathCond(c, fd.Body.List, a.node); okc {
+				for _, cj := range splitTop(cond, " && ") {
+					cj = strings.TrimSpace(cj)
+					for j := int64(0); j <= a.k; j++ {
+						if cj == fmt.Sprintf("%s == %d", stage.Name(), j) {
+							ok = true
+						}
+					}
+					if cj == fmt.Sprintf("%s <= %d", stage.Name(), a.k) || cj == fmt.Sprintf("%s < %d", stage.Name(), a.k+1) {
+						ok = true
+					}
+				}
+			}
+		}
+		e.Run.Check("R-FRAG", "findIndentedComments: the stage only moves forward", e.Prog.Pos(a.node.Pos()), ok,
+			fmt.Sprintf("`%s = %d` is reachable after a later stage has begun: the first group (comments hanging at the End indent) is re-opened after the second (comments for the next node) has started; a comment block is split between two nodes and reordered", stage.Name(), a.k))
+	}
+	e.Run.Analysed("stage assignments", len(asgs))
+	e.Run.Floor("R-FRAG", "stage assignments in findIndentedComments", len(asgs), 1)
 }
